@@ -169,6 +169,9 @@ func linScenarios() []linScenario {
 		{"pkce-oidc", []LinOp{o("CreatePKCE", 1, 1), o("CreateOIDC", 1, 1)}, [][]LinOp{{o("GetPKCE", 1, 0), o("DeletePKCE", 1, 0)}, {o("DeleteOIDC", 1, 0), o("GetOIDC", 1, 0)}, {o("GetOIDC", 1, 0), o("GetPKCE", 1, 0)}}},
 		// every pair of methods that takes two mutexes runs against each other (a lock-order inversion deadlocks here)
 		{"create-vs-revoke", []LinOp{o("CreateAT", 1, 1), o("CreateRT", 1, 1)}, [][]LinOp{{o("CreateAT", 2, 1), o("CreateRT", 2, 1)}, {o("RevokeRT", 0, 1), o("RevokeAT", 0, 1)}, {o("RotateRT", 1, 1), o("GetRT", 2, 0)}}},
+		// revocations of UNRELATED grants at once, in a table with many other tokens: neither may undo the other
+		{"revoke-unrelated", append([]LinOp{o("CreateAT", 1, 1), o("CreateAT", 2, 2), o("CreateAT", 3, 3)}, manyATs(40)...),
+			[][]LinOp{{o("RevokeAT", 0, 1), o("GetAT", 1, 0)}, {o("RevokeAT", 0, 2), o("GetAT", 2, 0)}, {o("RevokeAT", 0, 3), o("GetAT", 3, 0), o("GetAT", 1, 0), o("GetAT", 2, 0)}}},
 		{"dev-create-invalidate", nil, [][]LinOp{{o("CreateDev", 1, 1), o("GetDev", 1, 0)}, {o("InvalidateDev", 1, 0), o("GetDev", 1, 0)}, {o("CreateDev", 2, 2), o("InvalidateDev", 2, 0)}}},
 		{"device", []LinOp{o("CreateDev", 1, 1)}, [][]LinOp{{o("GetDev", 1, 0), o("InvalidateDev", 1, 0)}, {o("GetDev", 1, 0), o("InvalidateDev", 1, 0)}, {o("GetDev", 1, 0)}}},
 	}
@@ -217,6 +220,15 @@ func linTrial(sc linScenario, h int) ([]LinEvent, bool) {
 	}
 	sort.SliceStable(evs, func(a, b int) bool { return evs[a].seq < evs[b].seq })
 	return evs, true
+}
+
+// manyATs: n access tokens of n other grants (keys and request ids from 100 up)
+func manyATs(n int) []LinOp {
+	out := []LinOp{}
+	for i := 0; i < n; i++ {
+		out = append(out, LinOp{M: "CreateAT", K: 100 + i, R: 100 + i})
+	}
+	return out
 }
 
 func TestLin(t *testing.T) {
